@@ -7,6 +7,8 @@
 (*                                                                         *)
 (* Lex(text) = [k |-> "tokens", toks |-> <<token...>>]                     *)
 (*           | [k |-> "error"]         (a syntax error is the only acceptable outcome) *)
+(*             (when the text ends inside a string or |identifier| the record also has  *)
+(*              open |-> TRUE and toks |-> the tokens before it)                        *)
 (*           | [k |-> "unsupported"]   (spelling outside the supported grammar: only    *)
 (*                                      "no crash" is demanded, C07)                    *)
 (* tokens: [t |-> "lp"] "rp" "vecopen" "quote" "dot"                       *)
@@ -90,10 +92,10 @@ EscapeValue(c) == CASE c = 97 -> 7 [] c = 98 -> 8 [] c = 116 -> 9 [] c = 110 -> 
 \* scan a string body starting after the opening quote: [k, cs, next] ; k \in {"ok", "error", "unsupported"}
 RECURSIVE ScanString(_, _, _)
 ScanString(text, i, acc) ==
-  IF i > Len(text) THEN [k |-> "error"]                                   \* unterminated
+  IF i > Len(text) THEN [k |-> "error", open |-> TRUE]                    \* unterminated
   ELSE IF text[i] = DQUOTE THEN [k |-> "ok", cs |-> acc, next |-> i + 1]
   ELSE IF text[i] = BSLASH THEN
-       (IF i + 1 > Len(text) THEN [k |-> "error"]
+       (IF i + 1 > Len(text) THEN [k |-> "error", open |-> TRUE]
         ELSE IF text[i + 1] = 120 \/ IsWhite(text[i + 1]) THEN [k |-> "unsupported"]      \* \x41; and line continuations
         ELSE IF EscapeValue(text[i + 1]) < 0 THEN [k |-> "error"]
         ELSE ScanString(text, i + 2, Append(acc, EscapeValue(text[i + 1]))))
@@ -123,10 +125,12 @@ LexFrom(text, i, acc) ==
   ELSE IF c \in {BACKQ, COMMA} THEN [k |-> "unsupported"]                  \* quasiquotation
   ELSE IF c = DQUOTE THEN
        LET r == ScanString(text, i + 1, <<>>) IN
-       IF r.k # "ok" THEN [k |-> r.k] ELSE LexFrom(text, r.next, Append(acc, [t |-> "str", cs |-> r.cs]))
+       IF r.k = "error" /\ "open" \in DOMAIN r THEN [k |-> "error", open |-> TRUE, toks |-> acc]     \* the text ends inside the string
+       ELSE IF r.k # "ok" THEN [k |-> r.k] ELSE LexFrom(text, r.next, Append(acc, [t |-> "str", cs |-> r.cs]))
   ELSE IF c = BAR THEN
        LET r == ScanBar(text, i + 1, <<>>) IN
-       IF r.k # "ok" THEN [k |-> r.k] ELSE LexFrom(text, r.next, Append(acc, [t |-> "ident", cs |-> r.cs]))
+       IF r.k = "error" THEN [k |-> "error", open |-> TRUE, toks |-> acc]                                \* the text ends inside |...|
+       ELSE IF r.k # "ok" THEN [k |-> r.k] ELSE LexFrom(text, r.next, Append(acc, [t |-> "ident", cs |-> r.cs]))
   ELSE IF c = HASH THEN
        (IF i + 1 > Len(text) THEN [k |-> "error"]
         ELSE IF text[i + 1] = LPAREN THEN LexFrom(text, i + 2, Append(acc, [t |-> "vecopen"]))
